@@ -36,8 +36,8 @@ def w_records(exes, addrs, allow):
                     if base["hl"][k] != r["hl"].get(k):
                         m, t = divmod(int(k), 2)
                         x, y = base["hl"][k], r["hl"].get(k)
-                        fields = ["ret", "errcode", "message", "is_ipv4", "is_ipv6", "is_domain", "rc", "idn_rc"]
-                        diff = [fields[j] for j in range(min(len(x), len(y or []))) if x[j] != y[j]] or ["shape"]
+                        fields = ["ret", "errcode", "message", "is_ipv4", "is_ipv6", "is_domain", "rc", "idn_rc", "lpart", "domain"]
+                        diff = [fields[j] for j in range(min(len(x), len(y or []), len(fields))) if x[j] != y[j]] or ["shape"]
                         part["viol"].append(("record-differs/%s/%s/%s" % (b, driver.MODES[m], "+".join(diff)),
                                              {"address": core.b2s(a), "backend": b, "mode": driver.MODES[m], "tld_check": t},
                                              {"idn2": x, b: y}))
